@@ -178,6 +178,10 @@ func init() {
 		ID: "C16", Level: "exploration", Scenarios: []string{"cdp"},
 		NewHarness: func(spec *PropSpec) Harness { return &c16Harness{spec: spec} },
 		TweakCfg: func(r *Rng, cfg *Config) {
+			if cfg.Scenario == "cdp+ctl" {
+				cfg.Knobs["esm"] = 1 // the emergency shutdown is executed (its records carry times)
+				cfg.Knobs["esm_fast"] = 1
+			}
 			if cfg.Scenario == "dex" {
 				cfg.Knobs["order_boost"] = 2
 				cfg.Knobs["burst_boost"] = int64(r.Intn(4))
@@ -265,6 +269,9 @@ func registerDerived() {
 			}
 			// block hooks, replicas and export/import also run under breaker / emergency shutdown
 			props["C16"].Scenarios = append(props["C16"].Scenarios, ctl)
+			if base == "cdp" {
+				props["C16"].Scenarios = append(props["C16"].Scenarios, ctl)
+			}
 			props["C15"].Scenarios = append(props["C15"].Scenarios, derive(ctl, "+inject", func(b func(w *World) []OpGen) func(w *World) []OpGen {
 				return c15Gens(func(w *World) []OpGen { return append(b(w), c15EnvGens()...) })
 			}))
